@@ -18,7 +18,7 @@ EXTENDS AtomTablesDefs, TLC
 
 CONSTANTS Universe,   \* set of names (code-point sequences) that may be looked up
           MaxHist,    \* number of lookups per behaviour
-          Bug         \* "none" | "cache_casefold" | "prefix_match" | "strip"  (negative controls)
+          Bug         \* "none" | "cache_casefold" | "prefix_match" | "strip" | "renotation"  (negative controls)
 
 VARIABLES cacheS, cacheA, last, nlook
 vars == <<cacheS, cacheA, last, nlook>>
@@ -41,7 +41,11 @@ RECURSIVE StripBlanks(_)
 StripBlanks(n) == IF n # <<>> /\ Head(n) = 32 THEN StripBlanks(Tail(n))
                   ELSE IF n # <<>> /\ n[Len(n)] = 32 THEN StripBlanks(SubSeq(n, 1, Len(n) - 1))
                   ELSE n
-Query(n) == IF Bug = "strip" THEN StripBlanks(n) ELSE n
+(* negative control "renotation": a friendly parser that also accepts <symbol><mass number> *)
+Renotate(n) == LET l == LetterRun(n, 1)
+               IN IF l \in 1..(Len(n) - 1) /\ \A i \in (l + 1)..Len(n) : IsDigit(n[i])
+                  THEN SubSeq(n, l + 1, Len(n)) \o SubSeq(n, 1, l) ELSE n
+Query(n) == IF Bug = "strip" THEN StripBlanks(n) ELSE IF Bug = "renotation" THEN Renotate(n) ELSE n
 
 ImplScat(n0) ==
     LET n == Query(n0)
